@@ -48,17 +48,21 @@ def Accepts (stream : List Byte) (items : List Item) : Prop :=
 
 theorem C20_exchangeCore_ok_iff (e : Exchange) (d : Data) :
     exchangeCore e = (d, none) ↔
-      e.dialOk = true ∧ e.alpn = alpnProto ∧ e.exportOk = true ∧
+      e.dialOk = true ∧ (e.quic = true ∨ e.alpn = alpnProto) ∧ e.exportOk = true ∧
       ∃ items, Accepts e.stream.flatten items ∧
         (items.foldl Item.apply (dialData e)).algo = aesSivCmac256 ∧
         (items.foldl Item.apply (dialData e)).cookies ≠ [] ∧
         d = { items.foldl Item.apply (dialData e) with c2s := e.c2s, s2c := e.s2c } := by
-  unfold exchangeCore
+  unfold exchangeCore exchangeCoreFrom
   by_cases hd : e.dialOk = true
   case neg => simp [hd]
-  by_cases ha : e.alpn = alpnProto
-  case neg => simp [hd, ha]
-  simp only [hd, Bool.not_true, Bool.false_eq_true, if_false, ha, ne_eq, not_true_eq_false, true_and]
+  by_cases ha : e.quic = true ∨ e.alpn = alpnProto
+  case neg =>
+    simp only [not_or] at ha
+    simp [hd, ha]
+  have hna : ¬(e.quic = false ∧ e.alpn ≠ alpnProto) := by
+    rcases ha with h | h <;> simp [h]
+  simp only [hd, Bool.not_true, Bool.false_eq_true, if_false, ha, hna, true_and, ne_eq]
   cases hr : readData e.stream (dialData e) with
   | mk d1 r =>
     cases r with
@@ -118,7 +122,7 @@ theorem C20_exchangeCore_ok_iff (e : Exchange) (d : Data) :
     records over the defaults, with the two exporter values as keys. -/
 theorem C20_success_iff (cached : Data) (e : Exchange) (d : Data) :
     exchangeKeys cached e = (d, none) ↔
-      e.dialOk = true ∧ e.alpn = alpnProto ∧ e.exportOk = true ∧
+      e.dialOk = true ∧ (e.quic = true ∨ e.alpn = alpnProto) ∧ e.exportOk = true ∧
       ∃ items, Accepts e.stream.flatten items ∧
         (items.foldl Item.apply (dialData e)).algo = aesSivCmac256 ∧
         (items.foldl Item.apply (dialData e)).cookies ≠ [] ∧
@@ -196,12 +200,12 @@ theorem C20_pool_is_issued (cached : Data) (e : Exchange) (d : Data)
 
 /-- NTP requests go to the server and port named in the exchange — the last server / port
     record before the end-of-message — and by default to the key-exchange host and the
-    standard NTP port (123). -/
+    standard NTP port (123 over IP, 10123 over SCION). -/
 theorem C20_server_port_defaults (cached : Data) (e : Exchange) (d : Data)
     (h : exchangeKeys cached e = (d, none)) :
     ∃ items, Accepts e.stream.flatten items ∧
       ((∀ it ∈ items, it.typ ≠ recServer) → d.server = e.host) ∧
-      ((∀ it ∈ items, it.typ ≠ recPort) → d.port = ntpPortIP) ∧
+      ((∀ it ∈ items, it.typ ≠ recPort) → d.port = if e.quic then ntpPortSCION else ntpPortIP) ∧
       (∀ pre sv post, items = pre ++ sv :: post → sv.typ = recServer →
         (∀ it ∈ post, it.typ ≠ recServer) → d.server = sv.body) ∧
       (∀ pre pt post, items = pre ++ pt :: post → pt.typ = recPort →
@@ -391,6 +395,25 @@ theorem C20_F8_old_failed_exchange_leaves_state :
     r2.out = .ok { server := [49], port := 123, cookies := [[7]] } := by
   decide
 
+/-- a QUIC exchange whose peer names neither server nor port -/
+def exQuicNoServerPort : Exchange where
+  quic := true
+  dialOk := true
+  host := [49]
+  alpn := "ntske/1"
+  stream := [[128, 4, 0, 2, 0, 15, 0, 5, 0, 1, 7, 128, 0, 0, 0]]
+  c2s := [1]
+  s2c := [2]
+
+/-- F18: the unrepaired QUIC branch discarded the defaults computed by dialQUIC, so a peer
+    that names neither server nor port left the client with an empty server and port 0; the
+    repaired code falls back to the key-exchange host and the SCION NTP port. -/
+theorem C20_F18_old_quic_defaults_dropped :
+    (exchangeCoreQUICOld exQuicNoServerPort).1.server = [] ∧ (exchangeCoreQUICOld exQuicNoServerPort).1.port = 0 ∧
+    (exchangeCoreQUICOld exQuicNoServerPort).2 = none ∧
+    (exchangeCore exQuicNoServerPort).1.server = [49] ∧ (exchangeCore exQuicNoServerPort).1.port = 10123 := by
+  decide
+
 /-! ### The server's message -/
 
 /-- What the NTS-KE server sends (next protocol, algorithm, server, port, the cookies, end)
@@ -400,7 +423,7 @@ theorem C20_server_message_accepted (ip : List Byte) (port : Nat) (cookies : Lis
     (msg : List Rec) (hmsg : serverMsg ip port cookies = some msg)
     (hip : ip.length < 65536) (hck : ∀ c ∈ cookies, c.length < 65536)
     (e : Exchange) (hd : e.dialOk = true) (ha : e.alpn = alpnProto) (hx : e.exportOk = true)
-    (hs : e.stream.flatten = packMsg msg) (cached : Data) :
+    (hq : e.quic = false) (hs : e.stream.flatten = packMsg msg) (cached : Data) :
     exchangeKeys cached e =
       ({ c2s := e.c2s, s2c := e.s2c, server := ip, port := port % 65536, cookies := cookies,
          algo := aesSivCmac256 }, none) := by
@@ -422,8 +445,8 @@ theorem C20_server_message_accepted (ip : List Byte) (port : Nat) (cookies : Lis
       · exact Nat.mod_lt _ (by decide)
       · exact hck c hc
     have hrd := readData_packed _ hfit e.stream [] (by rw [hs, ← hmsg]; simp) (dialData e)
-    unfold exchangeKeys exchangeCore
-    simp only [hd, ha, hx, hrd, Bool.not_true, Bool.false_eq_true, if_false, ne_eq, not_true_eq_false]
+    unfold exchangeKeys exchangeCore exchangeCoreFrom
+    simp only [hd, ha, hx, hq, hrd, Bool.not_true, Bool.false_eq_true, if_false, ne_eq, not_true_eq_false, and_false]
     simp only [List.foldl_append, List.foldl_cons, List.foldl_nil, foldl_cookie_recs, Rec.apply, dialData,
       List.headD_cons, List.nil_append, hne, Bool.false_eq_true, if_false, not_true_eq_false]
 
